@@ -1,6 +1,7 @@
 CONSTANTS
   Atoms = {"p", "q"}
   MaxDepth = 2
+  Tri = FALSE
 INIT Init
 NEXT Next
 INVARIANTS RoundTrip Idempotent MeaningKept ParserNormal
